@@ -266,7 +266,8 @@ KERNELS = [
     Fn(PROG, F_X, "base", name="X25519.base_src", doc="`x25519::base`"),
 ]
 
-HEADER = """import CxVerif.Impl.Ge
+HEADER = """import CxVerif.Util.GlueDebug
+import CxVerif.Impl.Ge
 import CxVerif.Impl.Ed25519
 import CxVerif.Impl.X25519
 import CxVerif.Extracted.KernelsFe64
